@@ -18,7 +18,7 @@ tvars == <<vars, tid, l, sha>>
 SeqToSet(s) == {s[i] : i \in 1..Len(s)}
 ToFs(j) == [exists |-> j.exists, hdr |-> SeqToSet(j.hdr), bad |-> SeqToSet(j.bad),
             npy |-> j.npy, npz |-> j.npz, meta |-> j.meta, rec |-> j.rec]
-ToObj(j) == [exists |-> j.exists, open |-> j.open, ro |-> j.ro, cache |-> j.cache]
+ToObj(j) == [exists |-> j.exists, open |-> j.open, ro |-> j.ro, cache |-> j.cache, rc |-> j.rc]
 ToReply(j) == [kind |-> j.kind, s |-> j.s, ks |-> SeqToSet(j.ks),
                ps |-> {<<j.ps[i][1], j.ps[i][2]>> : i \in 1..Len(j.ps)}]
 
@@ -41,6 +41,7 @@ ImplOf(e) ==
     [] e.op = "setmeta" -> ImplSetMeta(e.m)
     [] e.op = "update" -> ImplUpdate
     [] e.op = "recipe" -> ImplRecipe
+    [] e.op = "getrecipe" -> ImplGetRecipe
     [] e.op = "dump" -> ImplDump
     [] e.op = "close" -> ImplClose
     [] e.op = "drop" -> ImplDrop
